@@ -1,31 +1,27 @@
 /-
   C09 — Rule faults are contained (engine level): no execution method panics, whatever the
-  rules' outcomes; the error policy is followed.  (Rule level: GV.Props.C09 in Eval.)
+  rules' outcomes (a failing rule is an outcome with `fails = true`): no write to a nil result
+  map, no nil rule dereference, no statement outside the recognised idioms.  Proved for every
+  `ResultsWF` skeleton; the extracted ones are (`C11.wf_*`).  Hang freedom of the fan-outs
+  (Add = number of goroutines, Done on all paths, Wait) is part of `Conforms` (C05, C13).
+  Rule level (evaluator): GV.Props.C09r.
 -/
-import GV.Orch.AllConform
+import GV.Props.C11
 namespace GV.Props.C09
 open GV.Orch GV.Generated.Orch
 
-/-- No method ends in a panic (nil result map, nil rule dereference, unknown statement),
-    for any configuration satisfying the caller's contract. -/
-theorem C09_engine_no_panic (m : Method) (cfg : Cfg) (hp : Pre cfg) :
-    (run (All.skelOf m) cfg).2 ≠ .panicked := by
-  have h := congrArg Obs.fin (All.conforms_all m cfg hp)
-  simp only [obsOf, expectObs] at h
-  rw [h]
-  split <;> simp
+theorem C09_engine_no_panic (name : String) (sk : Skel) (hm : (name, sk) ∈ GV.Generated.Orch.all) (cfg : Cfg)
+    (hrb : cfg.rbNil = false) : (run sk cfg).2 ≠ .panicked :=
+  (results_exact sk (C11.wf_all _ hm) cfg hrb).2
 
-/-- Every fan-out is well formed (Add = number of goroutines, Done on every path, Wait). -/
-theorem C09_engine_no_hang (m : Method) (cfg : Cfg) (hp : Pre cfg) :
-    (run (All.skelOf m) cfg).1.parOk = true := by
-  have h := congrArg Obs.parOk (All.conforms_all m cfg hp)
-  simpa [obsOf, expectObs] using h
-
-/-- A failing rule is reported: the call returns an error iff a rule that ran failed
-    (or the call was rejected up front). -/
-theorem C09_engine_error_reported (m : Method) (cfg : Cfg) (hp : Pre cfg) :
-    (run (All.skelOf m) cfg).2 = (if (expect m cfg).err then .retErr else .retOk) := by
-  have h := congrArg Obs.fin (All.conforms_all m cfg hp)
-  simpa [obsOf, expectObs] using h
+/-- A nil rule builder is rejected with an error, not a panic. -/
+theorem C09_nil_builder (name : String) (sk : Skel) (hm : (name, sk) ∈ GV.Generated.Orch.all) (cfg : Cfg)
+    (hrb : cfg.rbNil = true) : (run sk cfg).2 = .retErr := by
+  have hwf := C11.wf_all _ hm
+  simp only [ResultsWF, Bool.and_eq_true, decide_eq_true_eq] at hwf
+  have hsk : sk = [⟨[], .retIf .rbNil .err⟩, ⟨[], .reset⟩] ++ sk.drop 2 := by
+    rw [← hwf.1, List.take_append_drop]
+  rw [hsk]
+  simp [run, evalCond, hrb, retFin]
 
 end GV.Props.C09
